@@ -136,7 +136,7 @@ theorem corners_near {e : Env K} {eps : K} (h : CoverHyp e eps) {pt : Nat → P 
   obtain ⟨hL, hunit, hd⟩ := edge_eq h.sqrt_nonneg h.sqrt_sq pt k (regime_sq h hr k hk)
   obtain ⟨o0, o1, o2, o3, o4⟩ := outK_bounds e pt n k
   obtain ⟨b1, b2, b3, b4⟩ := shift_bounds e pt n k hk
-  have hreg := hr.2.2.2.2.1 k hk
+  have hreg := hr.2.2.2.2 k hk
   have hw := h.hw
   have t0 := tauAbs_nonneg pt n k
   have t1 := tauAbs_nonneg pt n (k + 1)
@@ -187,6 +187,53 @@ theorem triIn_near {o : Out K} {S : List (P K)} {t : Stroke.Tri} (hT : TriIn o S
   rw [this] at hq
   exact nearSeg_tri X tv L r2 p1 p2 p3 q (hS _ m1) (hS _ m2) (hS _ m3) hq
 
+/-- the triangles of a round join's fan: vertices of the join or on the circle around the path point -/
+theorem triFan_near {o : Out K} {S : List (P K)} {c : P K} {r : K} {t : Stroke.Tri} (hT : TriFan o S c r t)
+    (X tv : P K) (L r2 : K) (hS : ∀ p ∈ S, NearSeg X tv L r2 p)
+    (hc : ∀ p : P K, (p - c).sqLen = r → NearSeg X tv L r2 p) :
+    ∃ v1 v2 v3 : VData K, o.verts[t.1]? = some v1 ∧ o.verts[t.2.1]? = some v2 ∧ o.verts[t.2.2]? = some v3
+      ∧ ∀ q, InTri q (v1.read.position, v2.read.position, v3.read.position) → NearSeg X tv L r2 q := by
+  obtain ⟨p1, p2, p3, ⟨v1, e1, q1⟩, ⟨v2, e2, q2⟩, ⟨v3, e3, q3⟩, m1, m2, m3⟩ := hT
+  refine ⟨v1, v2, v3, e1, e2, e3, ?_⟩
+  intro q hq
+  have : (v1.read.position, v2.read.position, v3.read.position) = (p1, p2, p3) := by
+    show (v1.position, v2.position, v3.position) = _
+    rw [q1, q2, q3]
+  rw [this] at hq
+  have hh : ∀ p : P K, (p ∈ S ∨ (p - c).sqLen = r) → NearSeg X tv L r2 p := by
+    intro p hp
+    rcases hp with hp | hp
+    · exact hS p hp
+    · exact hc p hp
+  exact nearSeg_tri X tv L r2 p1 p2 p3 q (hh _ m1) (hh _ m2) (hh _ m3) hq
+
+/-- the points of the circle of radius `w/2` around the end point of edge `k` are within the reach of edge `k` -/
+theorem circle_near {e : Env K} {eps : K} (h : CoverHyp e eps) {pt : Nat → P K} (n k : Nat)
+    (hL : 0 < (pt (k + 1) - pt k).sqLen) :
+    ∀ p : P K, (p - pt (k + 1)).sqLen = e.hwFw * e.hwFw → NearSeg (pt k) (eT pt k) (eL pt k) (reachSq e pt n k) p := by
+  intro p hp
+  obtain ⟨hLe, hunit, hd⟩ := edge_eq h.sqrt_nonneg h.sqrt_sq pt k hL
+  have hj : pt (k + 1) = pt k + (eT pt k).smul (eL pt k) := by
+    rw [← hd]; apply P.ext' <;> simp only [geom] <;> ring
+  refine ⟨eL pt k, le_of_lt hLe, le_refl _, ?_⟩
+  rw [← hj, hp]
+  unfold reachSq
+  have := mul_self_nonneg (e.hwFw * outK e pt n k)
+  linarith
+
+/-- … and the points of the circle around the first point are within the reach of edge `0` -/
+theorem circle_near_start {e : Env K} {eps : K} (h : CoverHyp e eps) {pt : Nat → P K} (n : Nat)
+    (hL : 0 < (pt (0 + 1) - pt 0).sqLen) :
+    ∀ p : P K, (p - pt 0).sqLen = e.hwFw * e.hwFw → NearSeg (pt 0) (eT pt 0) (eL pt 0) (reachSq e pt n 0) p := by
+  intro p hp
+  obtain ⟨hLe, hunit, hd⟩ := edge_eq h.sqrt_nonneg h.sqrt_sq pt 0 hL
+  have hj : pt 0 + (eT pt 0).smul 0 = pt 0 := by apply P.ext' <;> simp only [geom] <;> ring
+  refine ⟨0, le_refl _, le_of_lt hLe, ?_⟩
+  rw [hj, hp]
+  unfold reachSq
+  have := mul_self_nonneg (e.hwFw * outK e pt n 0)
+  linarith
+
 /-- the corner sets of `Emitted.only`, in closed form -/
 theorem quadSet_inner {e : Env K} {eps : K} (h : CoverHyp e eps) {pt : Nat → P K} {n : Nat} (hr : Regime e eps pt n)
     (i : Nat) (hi : i + 1 + 1 < n) : quadSet (jEP e pt (i + 1)) (jEP e pt (i + 1 + 1)) = cornerList e pt n (i + 1) := by
@@ -203,13 +250,23 @@ theorem quadSet_last {e : Env K} {eps : K} (h : CoverHyp e eps) {pt : Nat → P 
   have Ja := regime_jclosed h hr k (by omega)
   have hidx : k + 1 + 1 - 1 = k + 1 := rfl
   rw [hidx]
+  have hnp : ∀ b : Bool, e.hwFw * (if b then 0 else -lamAt e pt (k + 1)) ≤ 0 := by
+    intro b
+    have : (if b then (0 : K) else -lamAt e pt (k + 1)) ≤ 0 := by
+      split_ifs
+      · exact le_refl _
+      · have := lamAt_nonneg e pt (k + 1); linarith
+    exact mul_nonpos_of_nonneg_of_nonpos (le_of_lt h.hw) this
   have hprev : prevNext e pt (k + 1 + 1)
-      = (pt (k + 1) + (perp (eT pt (k + 1))).smul e.hwFw, pt (k + 1) - (perp (eT pt (k + 1))).smul e.hwFw) := by
+      = (pt (k + 1) + (perp (eT pt (k + 1))).smul e.hwFw
+          + (eT pt (k + 1)).smul (e.hwFw * (if psAt e pt (k + 1) then 0 else -lamAt e pt (k + 1))),
+         pt (k + 1) - (perp (eT pt (k + 1))).smul e.hwFw
+          + (eT pt (k + 1)).smul (e.hwFw * (if nsAt e pt (k + 1) then 0 else -lamAt e pt (k + 1)))) := by
     unfold prevNext; rw [if_neg (by omega)]
     show ((jEP e pt (k + 1)).pos.next, (jEP e pt (k + 1)).neg.next) = _
     rw [Ja.posNext, Ja.negNext]
-  obtain ⟨c1, c2⟩ := endCap_closed e eps h.ix_eq h.eps_nonneg h.sqrt_nonneg h.sqrt_sq h.ecap pt (k + 1)
-    (regime_sq h hr _ (by omega)) (hr.2.1 _ (by omega)) hprev
+  obtain ⟨c1, c2⟩ := endCap_closedG e eps h.ix_eq h.eps_nonneg h.sqrt_nonneg h.sqrt_sq pt (k + 1)
+    (regime_sq h hr _ (by omega)) (hr.2.1 _ (by omega)) _ _ (hnp _) (hnp _) hprev
   unfold cornerList
   rw [Ja.sNegNext, Ja.sPosNext, c1, c2, capShift_eq]
   simp only [sA0, sA1, sB0, sB1, if_true, if_neg (Nat.succ_ne_zero k), Nat.add_sub_cancel]
@@ -218,14 +275,17 @@ theorem quadSet_first {e : Env K} {eps : K} (h : CoverHyp e eps) {pt : Nat → P
     (hn : 2 ≤ n) :
     [startNeg e pt n, startPos e pt n, sPrev (jEP e pt 1).pos, sPrev (jEP e pt 1).neg] = cornerList e pt n 0 := by
   have J := regime_jclosed h hr 0 (by omega)
-  have hsec : secondPrev e pt n = (pt 1 + (perp (eT pt 0)).smul e.hwFw + (eT pt 0).smul 0,
-      pt 1 - (perp (eT pt 0)).smul e.hwFw + (eT pt 0).smul 0) := by
+  have hnn : ∀ b : Bool, (0 : K) ≤ e.hwFw * (if b then 0 else lamAt e pt (0 + 1)) := by
+    intro b; apply mul_nonneg (le_of_lt h.hw); split_ifs
+    · exact le_refl _
+    · exact lamAt_nonneg _ _ _
+  have hsec : secondPrev e pt n = (pt 1 + (perp (eT pt 0)).smul e.hwFw
+        + (eT pt 0).smul (e.hwFw * (if psAt e pt (0 + 1) then 0 else lamAt e pt (0 + 1))),
+      pt 1 - (perp (eT pt 0)).smul e.hwFw
+        + (eT pt 0).smul (e.hwFw * (if nsAt e pt (0 + 1) then 0 else lamAt e pt (0 + 1)))) := by
     unfold secondPrev; rw [if_neg (by omega), J.posPrev, J.negPrev]
-    have z : ∀ a : P K, a + (eT pt 0).smul 0 = a := by
-      intro a; apply P.ext' <;> simp only [geom] <;> ring
-    rw [z, z]
-  obtain ⟨d1, d2⟩ := startCap_closed e eps h.ix_eq h.eps_nonneg h.sqrt_nonneg h.sqrt_sq h.scap pt n
-    (regime_sq h hr 0 (by omega)) (hr.2.1 0 (by omega)) 0 (le_refl _) hsec
+  obtain ⟨d1, d2⟩ := startCap_closedG e eps h.ix_eq h.eps_nonneg h.sqrt_nonneg h.sqrt_sq pt n
+    (regime_sq h hr 0 (by omega)) (hr.2.1 0 (by omega)) _ _ (hnn _) (hnn _) hsec
   unfold cornerList
   rw [d1, d2, J.sPosPrev, J.sNegPrev, capShift_eq]
   have hb : ¬ (0 + 1 = n) := by omega
@@ -235,14 +295,14 @@ theorem quadSet_first {e : Env K} {eps : K} (h : CoverHyp e eps) {pt : Nat → P
 theorem quadSet_single {e : Env K} {eps : K} (h : CoverHyp e eps) {pt : Nat → P K} (hr : Regime e eps pt 1) :
     [startNeg e pt 1, startPos e pt 1, endPos e pt 1, endNeg e pt 1] = cornerList e pt 1 0 := by
   have hprev : prevNext e pt (0 + 1) = (pt 0 + (perp (eT pt 0)).smul e.hwFw, pt 0 - (perp (eT pt 0)).smul e.hwFw) := rfl
-  obtain ⟨c1, c2⟩ := endCap_closed e eps h.ix_eq h.eps_nonneg h.sqrt_nonneg h.sqrt_sq h.ecap pt 0
+  obtain ⟨c1, c2⟩ := endCap_closed e eps h.ix_eq h.eps_nonneg h.sqrt_nonneg h.sqrt_sq pt 0
     (regime_sq h hr 0 (by omega)) (hr.2.1 0 (by omega)) hprev
   have hμ : (0 : K) ≤ capShift e.o.endCap e.hwFw := by
     rw [capShift_eq]; exact mul_nonneg (le_of_lt h.hw) (capU_nonneg _)
   have hsec : secondPrev e pt 1 = (pt 1 + (perp (eT pt 0)).smul e.hwFw + (eT pt 0).smul (capShift e.o.endCap e.hwFw),
       pt 1 - (perp (eT pt 0)).smul e.hwFw + (eT pt 0).smul (capShift e.o.endCap e.hwFw)) := by
     unfold secondPrev; rw [if_pos rfl, c1, c2]
-  obtain ⟨d1, d2⟩ := startCap_closed e eps h.ix_eq h.eps_nonneg h.sqrt_nonneg h.sqrt_sq h.scap pt 1
+  obtain ⟨d1, d2⟩ := startCap_closed e eps h.ix_eq h.eps_nonneg h.sqrt_nonneg h.sqrt_sq pt 1
     (regime_sq h hr 0 (by omega)) (hr.2.1 0 (by omega)) _ hμ hsec
   unfold cornerList
   rw [d1, d2, c1, c2, capShift_eq, capShift_eq]
@@ -272,18 +332,29 @@ theorem joinSet_near {e : Env K} {eps : K} (h : CoverHyp e eps) {pt : Nat → P 
     rw [J.sPosPrev]
     simp only [cornerList, sB1, if_neg hnl, List.mem_cons, List.mem_nil_iff, or_false]
     right; right; left; trivial
-  -- a point at distance `w/2` from the join
-  have hround : ∀ c : K, c * c = e.hwFw * e.hwFw →
-      NearSeg (pt k) (eT pt k) (eL pt k) (reachSq e pt n k) (pt (k + 1) + (perp (eT pt (k + 1))).smul c) := by
-    intro c hcc
+  -- a point on an outer offset line of the next edge, at most `hw·outK` before the join
+  obtain ⟨o0, _, _, o3, o4⟩ := outK_bounds e pt n k
+  have hL0 := lamAt_nonneg e pt (k + 1)
+  have hround : ∀ c z : K, c * c = e.hwFw * e.hwFw → z * z ≤ (e.hwFw * outK e pt n k) * (e.hwFw * outK e pt n k) →
+      NearSeg (pt k) (eT pt k) (eL pt k) (reachSq e pt n k)
+        (pt (k + 1) + (perp (eT pt (k + 1))).smul c + (eT pt (k + 1)).smul z) := by
+    intro c z hcc hz
     refine ⟨eL pt k, le_of_lt hL, le_refl _, ?_⟩
     rw [← hj]
-    have : ((pt (k + 1) + (perp (eT pt (k + 1))).smul c) - pt (k + 1)).sqLen = e.hwFw * e.hwFw := by
+    have : ((pt (k + 1) + (perp (eT pt (k + 1))).smul c + (eT pt (k + 1)).smul z) - pt (k + 1)).sqLen
+        = e.hwFw * e.hwFw + z * z := by
       simp only [perp, geom] at hunit1 ⊢
-      linear_combination (c * c) * hunit1 + hcc
+      linear_combination (c * c + z * z) * hunit1 + hcc
     rw [this]
     unfold reachSq
-    nlinarith [mul_self_nonneg (e.hwFw * outK e pt n k)]
+    linarith
+  have hzb : ∀ L : K, 0 ≤ L → L ≤ outK e pt n k →
+      (e.hwFw * -L) * (e.hwFw * -L) ≤ (e.hwFw * outK e pt n k) * (e.hwFw * outK e pt n k) := by
+    intro L h0 h1
+    have hw := h.hw
+    have : e.hwFw * L ≤ e.hwFw * outK e pt n k := mul_le_mul_of_nonneg_left h1 (le_of_lt hw)
+    have h2 : 0 ≤ e.hwFw * L := mul_nonneg (le_of_lt hw) h0
+    nlinarith
   intro p hp
   simp only [joinSet, List.mem_cons, List.mem_nil_iff, or_false] at hp
   rcases hp with rfl | rfl | rfl | rfl
@@ -293,19 +364,31 @@ theorem joinSet_near {e : Env K} {eps : K} (h : CoverHyp e eps) {pt : Nat → P 
       have : sNext (jEP e pt (k + 1)).neg = sPrev (jEP e pt (k + 1)).neg := by simp [sNext, sPrev, hns]
       rw [this]; exact hpn
     | none =>
-      have : sNext (jEP e pt (k + 1)).neg = pt (k + 1) + (perp (eT pt (k + 1))).smul (-e.hwFw) := by
-        simp only [sNext, hns, Option.getD_none, J.negNext]
+      have hnsf : nsAt e pt (k + 1) = false := by
+        have := J.nsingle; rw [hns] at this; exact this.symm
+      have hle : lamAt e pt (k + 1) ≤ outK e pt n k := by
+        have : sB0 e pt n k = lamAt e pt (k + 1) := by simp only [sB0, if_neg hnl, hnsf, Bool.false_eq_true, if_false]
+        rw [← this]; exact o3
+      have : sNext (jEP e pt (k + 1)).neg
+          = pt (k + 1) + (perp (eT pt (k + 1))).smul (-e.hwFw) + (eT pt (k + 1)).smul (e.hwFw * -lamAt e pt (k + 1)) := by
+        simp only [sNext, hns, Option.getD_none, J.negNext, hnsf, Bool.false_eq_true, if_false]
         apply P.ext' <;> simp only [geom] <;> ring
-      rw [this]; exact hround _ (by ring)
+      rw [this]; exact hround _ _ (by ring) (hzb _ hL0 hle)
   · exact hpp
   · cases hps : (jEP e pt (k + 1)).pos.single with
     | some v =>
       have : sNext (jEP e pt (k + 1)).pos = sPrev (jEP e pt (k + 1)).pos := by simp [sNext, sPrev, hps]
       rw [this]; exact hpp
     | none =>
-      have : sNext (jEP e pt (k + 1)).pos = pt (k + 1) + (perp (eT pt (k + 1))).smul e.hwFw := by
-        simp only [sNext, hps, Option.getD_none, J.posNext]
-      rw [this]; exact hround _ rfl
+      have hpsf : psAt e pt (k + 1) = false := by
+        have := J.psingle; rw [hps] at this; exact this.symm
+      have hle : lamAt e pt (k + 1) ≤ outK e pt n k := by
+        have : sB1 e pt n k = lamAt e pt (k + 1) := by simp only [sB1, if_neg hnl, hpsf, Bool.false_eq_true, if_false]
+        rw [← this]; exact o4
+      have : sNext (jEP e pt (k + 1)).pos
+          = pt (k + 1) + (perp (eT pt (k + 1))).smul e.hwFw + (eT pt (k + 1)).smul (e.hwFw * -lamAt e pt (k + 1)) := by
+        simp only [sNext, hps, Option.getD_none, J.posNext, hpsf, Bool.false_eq_true, if_false]
+      rw [this]; exact hround _ _ rfl (hzb _ hL0 hle)
 
 /-- **every emitted triangle stays within the reach of the segment of its edge** -/
 theorem tri_reach {e : Env K} {eps : K} (h : CoverHyp e eps) {pt : Nat → P K} {n : Nat} (hr : Regime e eps pt n)
@@ -313,12 +396,45 @@ theorem tri_reach {e : Env K} {eps : K} (h : CoverHyp e eps) {pt : Nat → P K} 
     ∃ k, k < n ∧ ∃ v1 v2 v3 : VData K, o.verts[t.1]? = some v1 ∧ o.verts[t.2.1]? = some v2 ∧ o.verts[t.2.2]? = some v3
       ∧ ∀ q, InTri q (v1.read.position, v2.read.position, v3.read.position) →
           NearSeg (pt k) (eT pt k) (eL pt k) (reachSq e pt n k) q := by
-  rcases hE.only t ht with ⟨i, h1, h2, hT⟩ | ⟨i, h1, h2, hT⟩ | ⟨h2, hT⟩ | ⟨h2, hT⟩ | ⟨h1, hT⟩
+  rcases hE.only t ht with ⟨i, h1, h2, hT⟩ | ⟨i, h1, h2, hT⟩ | ⟨i, h1, h2, hT⟩ | ⟨h2, hT⟩ | ⟨h2, hT⟩ | ⟨h1, hT⟩
+    | ⟨h1, hT⟩ | ⟨h1, hT⟩
+  rotate_right 2
+  · -- the fan of a round end cap
+    obtain ⟨k, rfl⟩ : ∃ k, n = k + 1 := ⟨n - 1, by omega⟩
+    have hmem : ∀ p ∈ [endPos e pt (k + 1), endNeg e pt (k + 1)], p ∈ cornerList e pt (k + 1) k := by
+      intro p hp
+      rcases Nat.eq_zero_or_pos k with h0 | hpos
+      · subst h0
+        rw [← quadSet_single h hr]
+        simp only [List.mem_cons, List.mem_nil_iff, or_false] at hp ⊢
+        tauto
+      · obtain ⟨k', rfl⟩ : ∃ k', k = k' + 1 := ⟨k - 1, by omega⟩
+        rw [← quadSet_last h k' hr]
+        simp only [List.mem_cons, List.mem_nil_iff, or_false] at hp ⊢
+        tauto
+    exact ⟨k, by omega, triFan_near hT _ _ _ _ (fun p hp => corners_near h hr k (by omega) p (hmem p hp))
+      (circle_near h (k + 1) k (regime_sq h hr k (by omega)))⟩
+  · -- the fan of a round start cap
+    have hmem : ∀ p ∈ [startNeg e pt n, startPos e pt n], p ∈ cornerList e pt n 0 := by
+      intro p hp
+      by_cases hn1 : n = 1
+      · subst hn1
+        rw [← quadSet_single h hr]
+        simp only [List.mem_cons, List.mem_nil_iff, or_false] at hp ⊢
+        tauto
+      · rw [← quadSet_first h hr (by omega)]
+        simp only [List.mem_cons, List.mem_nil_iff, or_false] at hp ⊢
+        tauto
+    exact ⟨0, by omega, triFan_near hT _ _ _ _ (fun p hp => corners_near h hr 0 (by omega) p (hmem p hp))
+      (circle_near_start h n (regime_sq h hr 0 (by omega)))⟩
   · obtain ⟨i', rfl⟩ : ∃ i', i = i' + 1 := ⟨i - 1, by omega⟩
     rw [quadSet_inner h hr i' h2] at hT
     exact ⟨i' + 1, by omega, triIn_near hT _ _ _ _ (corners_near h hr (i' + 1) (by omega))⟩
   · obtain ⟨i', rfl⟩ : ∃ i', i = i' + 1 := ⟨i - 1, by omega⟩
     exact ⟨i', by omega, triIn_near hT _ _ _ _ (joinSet_near h hr i' h2)⟩
+  · obtain ⟨i', rfl⟩ : ∃ i', i = i' + 1 := ⟨i - 1, by omega⟩
+    exact ⟨i', by omega, triFan_near hT _ _ _ _ (joinSet_near h hr i' h2)
+      (circle_near h n i' (regime_sq h hr i' (by omega)))⟩
   · obtain ⟨k, rfl⟩ : ∃ k, n = k + 1 + 1 := ⟨n - 2, by omega⟩
     rw [quadSet_last h k hr] at hT
     exact ⟨k + 1, by omega, triIn_near hT _ _ _ _ (corners_near h hr (k + 1) (by omega))⟩
@@ -328,11 +444,13 @@ theorem tri_reach {e : Env K} {eps : K} (h : CoverHyp e eps) {pt : Nat → P K} 
     rw [quadSet_single h hr] at hT
     exact ⟨0, by omega, triIn_near hT _ _ _ _ (corners_near h hr 0 (by omega))⟩
 
-/-- with a Bevel join no corner of a join is shifted outwards -/
-theorem bevel_shifts {e : Env K} {pt : Nat → P K} {k : Nat} {ps ns : Bool} (J : JClosed e pt k ps ns)
-    (hb : e.o.join = .bevel) :
-    (if ns then jtau pt k else 0) ≤ 0 ∧ (if ps then -jtau pt k else 0) ≤ 0 := by
+/-- with a Bevel or Round join no corner of a join is shifted outwards -/
+theorem bevel_shifts {e : Env K} {pt : Nat → P K} {k : Nat} {ps ns : Bool} {lam : K} (J : JClosed e pt k ps ns lam)
+    (hb : e.o.join = .bevel ∨ e.o.join = .round) :
+    (if ns then jtau pt k else lam) ≤ 0 ∧ (if ps then -jtau pt k else lam) ≤ 0 := by
   have hnb := J.bevel hb
+  have hl0 : lam = 0 := J.bevel0 hb
+  subst hl0
   constructor
   · cases hns : ns with
     | false => simp
@@ -367,7 +485,7 @@ theorem bevel_shifts {e : Env K} {pt : Nat → P K} {k : Nat} {ps ns : Bool} (J 
 /-- **Bevel join: reach factor 1** except at a square cap: the only outward shift of an edge's quad is the
 cap's (`1` half width for a square cap, `0` for a butt cap) -/
 theorem outK_bevel {e : Env K} {eps : K} (h : CoverHyp e eps) {pt : Nat → P K} {n : Nat} (hr : Regime e eps pt n)
-    (hb : e.o.join = .bevel) (k : Nat) (hk : k < n) :
+    (hb : e.o.join = .bevel ∨ e.o.join = .round) (k : Nat) (hk : k < n) :
     outK e pt n k ≤ Max.max (if k = 0 then capU e.o.startCap else 0) (if k + 1 = n then capU e.o.endCap else 0) := by
   have hs0 : (0 : K) ≤ capU e.o.startCap := capU_nonneg _
   have he0 : (0 : K) ≤ capU e.o.endCap := capU_nonneg _
@@ -380,10 +498,10 @@ theorem outK_bevel {e : Env K} {eps : K} (h : CoverHyp e eps) {pt : Nat → P K}
       obtain ⟨b1, b2⟩ := bevel_shifts (regime_jclosed h hr k' hk) hb
       simp only [sA0, sA1, if_neg (Nat.succ_ne_zero k'), Nat.add_sub_cancel]
       constructor
-      · have : -(if nsAt e pt (k' + 1) = true then -jtau pt k' else 0) = (if nsAt e pt (k' + 1) = true then jtau pt k' else 0) := by
+      · have : -(if nsAt e pt (k' + 1) = true then -jtau pt k' else -lamAt e pt (k' + 1)) = (if nsAt e pt (k' + 1) = true then jtau pt k' else lamAt e pt (k' + 1)) := by
           split_ifs <;> simp
         rw [this]; exact b1
-      · have : -(if psAt e pt (k' + 1) = true then jtau pt k' else 0) = (if psAt e pt (k' + 1) = true then -jtau pt k' else 0) := by
+      · have : -(if psAt e pt (k' + 1) = true then jtau pt k' else -lamAt e pt (k' + 1)) = (if psAt e pt (k' + 1) = true then -jtau pt k' else lamAt e pt (k' + 1)) := by
           split_ifs <;> simp
         rw [this]; exact b2
   have hend : sB0 e pt n k ≤ (if k + 1 = n then capU e.o.endCap else 0) ∧ sB1 e pt n k ≤ (if k + 1 = n then capU e.o.endCap else 0) := by
@@ -413,14 +531,16 @@ theorem outK_le (e : Env K) (pt : Nat → P K) (n k : Nat) (hk : k < n) :
     · obtain ⟨k', rfl⟩ : ∃ k', k = k' + 1 := ⟨k - 1, by omega⟩
       rw [tauAbs_mid pt n k' hk]
       simp only [sA0, sA1, if_neg (Nat.succ_ne_zero k'), Nat.add_sub_cancel]
-      constructor <;> split_ifs <;> simp [le_abs_self, neg_le_abs, abs_nonneg]
+      have hl := lamAt_le e pt k'
+      constructor <;> split_ifs <;> simp [le_abs_self, neg_le_abs, hl]
   have hend : sB0 e pt n k ≤ (if k + 1 = n then capU e.o.endCap else tauAbs pt n (k + 1))
       ∧ sB1 e pt n k ≤ (if k + 1 = n then capU e.o.endCap else tauAbs pt n (k + 1)) := by
     by_cases hl : k + 1 = n
     · simp [sB0, sB1, hl]
     · rw [tauAbs_mid pt n k (by omega)]
       simp only [sB0, sB1, if_neg hl]
-      constructor <;> split_ifs <;> simp [le_abs_self, neg_le_abs, abs_nonneg]
+      have hl' := lamAt_le e pt k
+      constructor <;> split_ifs <;> simp [le_abs_self, neg_le_abs, hl']
   unfold outK
   refine max_le (le_trans hA (le_max_left _ _)) (max_le (le_trans hstart.1 (le_max_left _ _))
     (max_le (le_trans hstart.2 (le_max_left _ _)) (max_le (le_trans hend.1 (le_max_right _ _)) (le_trans hend.2 (le_max_right _ _)))))
